@@ -378,6 +378,8 @@ class Verdict:
                 raise Inconclusive("harness error while replaying behaviour %s: %s" % (r["idx"], r["err"]))
             for d in r["divs"]:
                 fid = classify(r, d) if classify else None
+                if fid and fid not in {f["id"] for f in load_findings()}:
+                    fid = None      # only findings listed in known_findings.json are ever suppressed
                 if fid:
                     self.known[fid] = self.known.get(fid, 0) + 1
                     continue
